@@ -357,6 +357,11 @@ theorem greedyAdd_le (ub p rem : Rat) : greedyAdd ub p rem ≤ ub - p ∧ greedy
 theorem greedyAdd_nonneg (ub p rem : Rat) (h1 : p ≤ ub) (h2 : 0 ≤ rem) : 0 ≤ greedyAdd ub p rem := by
   simp only [greedyAdd, pyMin]; split_ifs <;> grind
 
+/-- The skip condition, whatever the order / polarity the source writes it in. -/
+theorem greedySkip_iff (rem p : Rat) : greedySkip rem p ↔ (isCloseToZero rem ∨ isCloseToZero p) := by
+  unfold greedySkip
+  by_cases h1 : isCloseToZero rem <;> by_cases h2 : isCloseToZero p <;> simp [h1, h2]
+
 theorem greedyGo_rel : ∀ (ss : List Slot) (rem : Rat), All2 GRel ss (greedyGo rem ss).1
   | [], _ => .nil
   | s :: ss, rem => by
@@ -365,7 +370,7 @@ theorem greedyGo_rel : ∀ (ss : List Slot) (rem : Rat), All2 GRel ss (greedyGo 
     · exact .cons ⟨rfl, rfl, fun h => h, fun _ => rfl⟩ (greedyGo_rel ss _)
     · refine .cons ⟨rfl, rfl, ?_, ?_⟩ (greedyGo_rel ss _)
       · intro hp; have := greedyAdd_le s.ub s.p rem; simp only []; grind
-      · intro hc; exact absurd (Or.inr hc) h
+      · intro hc; exact absurd ((greedySkip_iff _ _).2 (Or.inr hc)) h
 
 theorem greedyGo_sum : ∀ (ss : List Slot) (rem : Rat),
     sumL ((greedyGo rem ss).1.map (·.p)) + (greedyGo rem ss).2 = sumL (ss.map (·.p)) + rem
